@@ -45,6 +45,8 @@ Classes == {"plain", "lt", "gt", "amp", "quot", "apos", "delim", "nonascii", "sp
             (* values a "normaliser" would rewrite *)
             "dotseg", "pctenc", "upcase", "bslash", "tab"}
 C10Cases == {[param |-> p, classes |-> c] : p \in Params, c \in SeqsUpTo(Classes, K1)}
+            (* a value of some hundred kilobytes whose multi-byte characters sit at every alignment *)
+            \cup {[param |-> p, classes |-> <<"big-nonascii">>] : p \in {"text-config", "json-config", "set-config", "log", "xpath", "edit-fragment", "load-opaque", "persist"}}
 
 (* C14: mutation scripts over the message templates: operator, one or two positions (eighths of the message) *)
 Templates == {"hello", "reply-ok", "reply-errors", "reply-data", "reply-bare", "load-ok", "load-errors",
